@@ -687,10 +687,12 @@ class LowerToIRVisitor(Visitor.DefaultVisitor):
     def v_AssignmentExpression(self, expr, ctx):
         value = self.v_Visit(expr.GetRight(), ctx)
         ctx.BeginAssignment(value)
-        destination = self.v_Visit(expr.GetLeft(), ctx)
+        self.v_Visit(expr.GetLeft(), ctx)
         ctx.EndAssignment()
 
-        return destination
+        # The value of an assignment expression is the value that was
+        # assigned; the store instruction itself does not produce a value
+        return value
 
     def v_ArrayExpression(self, expr, ctx):
         array = self.v_Visit(expr.GetParent(), ctx)
